@@ -664,7 +664,7 @@ impl<L: Lw> Node for UnsizedString<L> {
         assert_eq!(c.next(), Some(1));
         let n = c.next().unwrap() as usize;
         let b: Vec<u8> = (0..n).map(|_| cur_bytes(c)[0]).collect();
-        String::from_utf8(b).expect("generator produces ASCII")
+        String::from_utf8(b).expect("generator produces valid UTF-8")
     }
     fn to_val(o: &String, out: &mut Vec<i128>) {
         out.extend([3, 1, 1, o.len() as i128]);
@@ -683,7 +683,7 @@ impl<L: Lw> Node for UnsizedString<L> {
         match op {
             55 => {
                 let b = cur_bytes(c);
-                w.set(String::from_utf8(b).expect("ASCII"))
+                w.set(String::from_utf8(b).expect("valid UTF-8"))
             }
             _ => unsupported(),
         }
